@@ -1,7 +1,7 @@
 //! C06 — output style changes formatting only: expanded and compressed output describe the same
 //! CSS, and SassScript evaluation does not depend on the style.
 
-use crate::corpus::corpus;
+use crate::corpus::{corpus, fuzz_corpus};
 use crate::engine::*;
 use crate::gen::chooser::{choices, Chooser};
 use crate::gen::sheet::{gen_sheet, SheetOpts};
@@ -151,11 +151,22 @@ impl Prop for C06 {
             .boxed();
         Some((s, tier.pick(20_000, 300_000)))
     }
-    fn enumerate(&self, _tier: Tier) -> Vec<Case> {
-        (0..corpus().len())
+    fn enumerate(&self, tier: Tier) -> Vec<Case> {
+        let mut v: Vec<Case> = (0..corpus().len())
             .filter(|i| !corpus()[*i].uses_random() && crate::gen::text::bracket_depth(&corpus()[*i].input) < 60)
             .map(corpus_case)
-            .collect()
+            .collect();
+        if tier == Tier::Thorough {
+            // inputs harvested from the coverage-guided campaign (committed snapshot)
+            v.extend(fuzz_corpus().iter().filter(|e| !e.uses_random() && crate::gen::text::bracket_depth(&e.input) < 60).map(|e| Case {
+                class: "fuzz-corpus".into(),
+                source: e.input.clone(),
+                syntax: e.syntax(),
+                features: vec![],
+                files: vec![],
+            }));
+        }
+        v
     }
     fn check(&self, case: &Case, cx: &mut Ctx) -> Verdict {
         cx.class(&format!("class:{}", case.class));
